@@ -34,6 +34,7 @@ inductive Status where
   | badTargetNodeIdInvalid
   | badDuplicateReferenceNotAllowed
   | badNodeIdUnknown
+  | badReferenceNotAllowed
 deriving Repr, DecidableEq
 
 def Status.name : Status → String
@@ -54,6 +55,7 @@ def Status.name : Status → String
   | .badTargetNodeIdInvalid => "BadTargetNodeIdInvalid"
   | .badDuplicateReferenceNotAllowed => "BadDuplicateReferenceNotAllowed"
   | .badNodeIdUnknown => "BadNodeIdUnknown"
+  | .badReferenceNotAllowed => "BadReferenceNotAllowed"
 
 def clsObject : Nat := 1
 def clsVariable : Nat := 2
@@ -75,6 +77,11 @@ deriving Repr, DecidableEq
 def idBase : Nat := 1000
 
 def exists? (s : NS) (n : Nat) : Bool := s.sp.nodes.contains n
+
+/-- ids from `unregBase` upwards stand for node ids whose namespace index is not registered in the
+address space (`AddressSpace::namespace_exists` is false) -/
+def unregBase : Nat := 5000
+def inRegisteredNs (n : Nat) : Bool := n < unregBase
 
 def classOf (s : NS) (n : Nat) : Option Nat :=
   if exists? s n then (s.info.get n).map (·.1) else none
@@ -142,6 +149,8 @@ def precheck (hier : Nat → Bool) (s : NS) (it : AddNodesItem) : Except Status 
   if !s.canModify then .error .badUserAccessDenied
   else if it.serverIndex ≠ 0 then .error .badNodeIdRejected
   else if it.nodeClass = 0 then .error .badNodeClassInvalid
+  else if (match it.requested with | some r => !inRegisteredNs r | none => false) then
+    .error .badNodeIdRejected
   else if (match it.requested with | some r => exists? s r | none => false) then
     .error .badNodeIdExists
   else match it.name with
@@ -231,6 +240,7 @@ def addRefCheck (s : NS) (it : AddReferencesItem) : Except Status Nat :=
   else if !exists? s it.source then .error .badSourceNodeIdInvalid
   else if !exists? s it.target then .error .badTargetNodeIdInvalid
   else if it.targetClass = 0 then .error .badNodeClassInvalid
+  else if it.source = it.target then .error .badReferenceNotAllowed
   else if classOf s it.target != some it.targetClass then .error .badNodeClassInvalid
   else match it.refType with
   | none => .error .badReferenceTypeIdInvalid
@@ -239,7 +249,9 @@ def addRefCheck (s : NS) (it : AddReferencesItem) : Except Status Nat :=
     if hasRef s.sp.refs it.source it.target t then .error .badDuplicateReferenceNotAllowed
     else .ok t
 
-/-- the insertion, in the direction asked for; `none` = self reference panic (property C33) -/
+/-- the insertion, in the direction asked for; `none` = the self reference panic of
+`insert_reference`, out of reach since `add_reference` answers BadReferenceNotAllowed for it
+(theorem `addref_total`) -/
 def linkRefs (s : NS) (it : AddReferencesItem) (t : Nat) : Option Refs :=
   if it.isForward then insertRef s.sp.refs it.source it.target t
   else insertRef s.sp.refs it.target it.source t
